@@ -19,11 +19,14 @@ COQ_DIR = 'Loop'
 ASSUMPTIONS = [
     'reference strings are modelled in parsed form (stage, producer, file, method); the parser is exercised by the '
     'correspondence only (C09 is about it); validation errors of instantiate_dowhile are not modelled (documents load)',
-    'no replication inside the loop; looped component names are pairwise distinct, contain no "#", and differ from '
-    'binding and outside names; :loopref/:loopoutput are used by consumers outside the loop only',
+    'no replication inside the loop; the (stage, name) pairs of the looped components are pairwise distinct (the same '
+    'name may be used in two stages), names contain no "#" and differ from binding and outside names; '
+    ':loopref/:loopoutput are used by consumers outside the loop only',
     'files read by :output/:loopoutput are created by the harness with contents naming their producer',
-    'command-line arguments of generated components never contain two references one of which is a word-bounded '
-    'substring of the other (the regular-expression substitution of rewrite_all_references is C03/C10 territory)',
+    'command-line arguments of RANDOMLY generated components never contain two references one of which is a '
+    'word-bounded substring of the other: the sequential regular-expression substitution of rewrite_all_references '
+    'corrupts such command lines (open finding F5c, reproduced by two fixed corpus cases on every run; modelled in '
+    'coq/Loop/Subst.v)',
 ]
 HEADER = 'Require Import V.Lib.JTree V.Loop.Model.\nOpen Scope N_scope.'
 CHECKER = 'check_case'
@@ -47,6 +50,13 @@ def gen_case(rng, k):
     stages = sorted(rng.choice([0, 0, 1, 2]) for _ in range(ncomp))
     if rng.random() < 0.5:
         stages = [s - stages[0] for s in stages]
+    # two looped components of different stages may have the same name (F5b: the DoWhile state and
+    # map_placeholder_id_to_iteration used to compare the name only)
+    if ncomp >= 2 and rng.random() < 0.3:
+        pairs = [(i, j) for i in range(ncomp) for j in range(i + 1, ncomp) if stages[i] != stages[j]]
+        if pairs:
+            i, j = rng.choice(pairs)
+            names[j] = names[i]
     nb = rng.choice([0, 1, 1, 2, 2, 3])
     ibind = [[b, rng.choice(['ref', 'output', 'output', 'copy'])] for b in rng.sample(BIND_NAMES, nb)]
     types = dict(ibind)
@@ -144,6 +154,81 @@ def simple_case(k):
             'k': k}
 
 
+def samename_case(k, cond_stage):
+    """two looped components named 'x' in stages 0 and 1 (witness of F5b, repaired by d93f459): the condition is
+    produced by the one of stage cond_stage.  Before the fix the state named whichever 'k#x' came first in a set."""
+    return {'S': 1, 'dwname': 'dw', 'srcs': [['src0', 0]],
+            'comps': [{'name': 'x', 'stage': 0, 'refs': [['B', 'b0', '']]},
+                      {'name': 'x', 'stage': 1, 'refs': [['C', 0, 'x', '', 'output']]}],
+            'ibind': [['b0', 'output']], 'binds': [['b0', [0, 'src0', '']]],
+            'loopb': [['b0', [1, 'x', '']]], 'cond': [cond_stage, 'x', 'f'],
+            'outs': [{'name': 'rep', 'stage': 3, 'refs': [[2, 'x', '', 'ref'], [1, 'x', '', 'ref'],
+                                                           [2, 'x', '', 'loopref'], [1, 'x', 'f', 'loopoutput']]}],
+            'k': k}
+
+
+def overlap_case(k):
+    """witness of the open finding F5c: looped components 'b' and 'a-b' both referenced on the command line of
+    'stop' ('a-b:ref b:ref').  rewrite_all_references substitutes one reference after the other with
+    re.sub(r'\\b<ref>\\b', ..., count=1): 'b:ref' first matches INSIDE the already rewritten 'stage1.0#a-b:ref'."""
+    return {'S': 1, 'dwname': 'dw', 'srcs': [['src0', 0]],
+            'comps': [{'name': 'b', 'stage': 0, 'refs': [['B', 'b0', '']]},
+                      {'name': 'a-b', 'stage': 0, 'refs': [['C', None, 'b', '', 'ref']]},
+                      {'name': 'stop', 'stage': 0, 'refs': [['C', None, 'a-b', '', 'ref'], ['C', None, 'b', '', 'ref']]}],
+            'ibind': [['b0', 'output']], 'binds': [['b0', [0, 'src0', '']]],
+            'loopb': [['b0', [None, 'a-b', '']]], 'cond': [None, 'stop', 'f'],
+            'outs': [{'name': 'rep', 'stage': 2, 'refs': [[1, 'b', '', 'ref']]}],
+            'k': k}
+
+
+F5C = 'overlapping_reference_texts_on_a_looped_command_line'
+
+
+def loop_args_conflict(case):
+    """class of F5c (a predicate on the input; Loop.Subst.overlap): the command line of a LOOPED component holds two
+    different reference texts, the LATER of which occurs word-bounded inside the EARLIER one (whose rewritten form
+    is already in the string when the later one is substituted; the other direction is harmless)"""
+    _main, dw = c05_impl.documents(case)
+    for comp in dw['components']:
+        toks = (comp.get('command', {}).get('arguments') or '').split()
+        for i, a in enumerate(toks):
+            for b in toks[i + 1:]:
+                if a != b and ':' in b and re.search(r'\b' + re.escape(b) + r'\b', a):
+                    return True
+    return False
+
+
+def subst_correspondence(ctx):
+    """the real flowir.rewrite_all_references on the command line 'n1:ref n2:ref' of a looped component, for every
+    ordered pair of distinct generator names, against Loop.Subst.rewritten (sequential re.sub with \\b, count=1)"""
+    import logging
+    logging.disable(logging.CRITICAL)
+    import experiment.model.frontends.flowir as F
+    terms, owners = [], []
+    for n1 in COMP_NAMES:
+        for n2 in COMP_NAMES:
+            if n1 == n2:
+                continue
+            for S, i in ((1, 0), (ctx.rng.choice([0, 1, 3]), ctx.rng.choice([1, 2, 9, 10, 11, 12, 25]))):
+                value = '%s:ref %s:ref' % (n1, n2)
+                try:
+                    got = F.rewrite_all_references(value, {}, set(), 0, S, iter_number=i,
+                                                   looped_ids={(S, n1), (S, n2)})
+                except Exception as e:
+                    got = 'EXC:' + type(e).__name__
+                terms.append('(%s, %s, (%s, %s), %s)' % (cstr(n1), cstr(n2), cN(S), cN(i), cstr(got)))
+                owners.append((n1, n2, S, i, got))
+                ctx.count('command-line substitution cases')
+                if re.search(r'\b' + re.escape(n2 + ':ref') + r'\b', n1 + ':ref'):
+                    ctx.count('command-line substitution cases with overlapping texts')
+    bad = ctx.model_mismatches('Require Import V.Lib.JTree V.Loop.Model V.Loop.Subst.\nOpen Scope N_scope.', terms,
+                               'check_subst', chunk=300, name='c05subst')
+    for i in bad:
+        n1, n2, S, it, got = owners[i]
+        ctx.disagree({'n1': n1, 'n2': n2, 'S': S, 'iteration': it}, got, 'Loop.Subst.rewritten',
+                     'C05 command-line substitution: flowir.rewrite_all_references vs Loop.Subst.rewrite_seq')
+
+
 def args_conflict(case):
     """two references on one generated command line, one a word-bounded substring of the other"""
     main, dw = c05_impl.documents(case)
@@ -219,12 +304,12 @@ def predicate(case, obs):
         if set(ph['represents']) != set(node(c, i) for i in range(k + 1)):
             bad.append('a placeholder does not represent all instances')
             break
-    byname = dict((c['name'], c) for c in case['comps'])
+    byid = dict(((c['stage'], c['name']), c) for c in case['comps'])
     for o in case['outs']:
         for r in o['refs']:
             st, name, f, m = r
-            c = byname.get(name)
-            if c is None or S + c['stage'] != st:
+            c = byid.get((st - S, name))
+            if c is None:
                 continue
             got = obs['resolve']['%s|%s' % (o['name'], c05_impl.ref_str(*r))]
             if m in ('loopref', 'loopoutput'):
@@ -238,7 +323,7 @@ def predicate(case, obs):
                 if not re.search(r'[/.]%d#%s(/|\)|$)' % (k, re.escape(name)), got):
                     bad.append('a reference from outside the loop does not resolve to the numerically highest iteration')
     cn = case['cond'][1]
-    want_cond = c05_impl.ref_str(S + byname[cn]['stage'], '%d#%s' % (k, cn), case['cond'][2], 'output')
+    want_cond = c05_impl.ref_str(S + (case['cond'][0] or 0), '%d#%s' % (k, cn), case['cond'][2], 'output')
     if obs['state']['currentIteration'] != k or obs['state']['currentCondition'] != want_cond:
         bad.append('the current condition of the loop is not the one produced by iteration k')
     seen, uniq = set(), []
@@ -319,8 +404,13 @@ def explore(ctx, cases, parallel=True):
             ctx.count('k>=10 (decimal and lexicographic order differ)')
         if 'error' in obs and obs['error'].startswith('driver:'):
             raise RuntimeError('C05 driver failed: %s %s' % (obs['error'], obs.get('msg')))
+        classes = [F5C] if loop_args_conflict(case) else []
+        if classes:
+            ctx.count('looped command line with overlapping reference texts (class of the open finding F5c)')
+        if len(set((c['stage'], c['name']) for c in case['comps'])) > len(set(c['name'] for c in case['comps'])):
+            ctx.count('two looped components with the same name in different stages')
         for what in predicate(case, obs):
-            ctx.fail({'case': case, 'observed': _brief(obs)}, what, [])
+            ctx.fail({'case': case, 'observed': _brief(obs)}, what, classes)
         if 'error' in obs:
             continue
         terms.append(c_case(case, obs))
@@ -353,6 +443,10 @@ def _brief(obs):
 
 def corpus():
     out = [simple_case(10), simple_case(11), simple_case(0), simple_case(1), simple_case(12)]   # F5 witness first
+    # F5b (fixed): whichever instance the unordered set yields first, one of the two conditions exposes a regression
+    out += [samename_case(2, 1), samename_case(2, 0), samename_case(11, 1), samename_case(0, None)]
+    # F5c (open): reproduced on every run, whatever VERIF_SEED
+    out += [overlap_case(0), overlap_case(2)]
     d = os.path.join(os.path.dirname(os.path.abspath(__file__)), 'corpus', 'c05')
     if os.path.isdir(d):
         for f in sorted(os.listdir(d)):
@@ -380,6 +474,7 @@ def run(ctx):
             cases.append(c)
             n += 1
     explore(ctx, cases)
+    subst_correspondence(ctx)
     ctx.count('cases', len(cases))
 
 
